@@ -10,10 +10,13 @@
 //! exit 2: machinery error (never a verdict)
 
 mod common;
+mod conform_model;
 mod evidence;
 mod oracle;
 mod prog;
 mod props;
+#[path = "../../conform/src/storescen.rs"]
+mod storescen;
 
 use std::time::Duration;
 use verif_rt::explore::{self, Cfg, Fixed, Scenario};
@@ -103,6 +106,7 @@ fn main() {
     match args.cmd.as_str() {
         "check" => std::process::exit(check(&args)),
         "replay" => std::process::exit(replay(&args.target)),
+        "conform-model" => std::process::exit(conform_model::run(&args.target, args.bound.unwrap_or(1))),
         "list" => {
             for s in props::scenarios(&args.target, args.tier) {
                 println!("{} [{}] bound {}", s.name, s.params, s.bound);
